@@ -9,6 +9,7 @@ from yowsup.axolotl import exceptions
 from .layer_base import AxolotlBaseLayer
 
 import logging
+import threading
 
 logger = logging.getLogger(__name__)
 
@@ -30,6 +31,9 @@ class AxolotlSendLayer(AxolotlBaseLayer):
             notify the upper layers and let them handle it.
         '''
         self.sentQueue = []
+        # encrypting a message and handing it down is one step: stanzas must leave in the order of their chain counters
+        # (a sender key re-distribution overtaking a message encrypted before it makes the recipient drop that message)
+        self._encryptAndSendLock = threading.RLock()
 
     def __str__(self):
         return "Axolotl Layer"
@@ -142,6 +146,10 @@ class AxolotlSendLayer(AxolotlBaseLayer):
         self.toLower(messageEntity.toProtocolTreeNode())
 
     def sendToContact(self, node):
+        with self._encryptAndSendLock:
+            return self._sendToContact(node)
+
+    def _sendToContact(self, node):
         recipient_id = node["to"].split('@')[0]
 
         protoNode = node.getChild("proto")
@@ -155,6 +163,10 @@ class AxolotlSendLayer(AxolotlBaseLayer):
         return self.sendEncEntities(node, [EncProtocolEntity(EncProtocolEntity.TYPE_MSG if ciphertext.__class__ == WhisperMessage else EncProtocolEntity.TYPE_PKMSG, 2, ciphertext.serialize(), mediaType)])
 
     def sendToGroupWithSessions(self, node, jidsNeedSenderKey = None, retryCount=0):
+        with self._encryptAndSendLock:
+            return self._sendToGroupWithSessions(node, jidsNeedSenderKey, retryCount)
+
+    def _sendToGroupWithSessions(self, node, jidsNeedSenderKey = None, retryCount=0):
         """
         For each jid in jidsNeedSenderKey will create a pkmsg enc node with the associated jid.
         If retryCount > 0 and we have only one jidsNeedSenderKey, this is a retry requested by a specific participant
